@@ -285,8 +285,8 @@ struct Runner {
 		kn.guardReq = s.prng.below(25);
 		kn.consume  = s.prng.below(25);
 		kn.planEdit = s.prng.below(30);
-		kn.allowSelect  = !ANY_HEADLESS;
-		kn.allowUtility = !ANY_HEADLESS;
+		kn.allowSelect  = true;		// anonymous heads answer the defaults select() = 0, utility() = 1
+		kn.allowUtility = true;
 		Out& o = out();
 		o << "scenario " << index << "\n";
 		o << "shape " << SHAPE_TEXT << "\n";
@@ -359,7 +359,7 @@ struct Runner {
 			}
 #if VH_PLANS
 			else if (r < 79) {
-				const int sid = s.randomState(true);
+				const int sid = s.randomState(false);	// succeed(root) is rejected by HFSM2_CHECKED
 				const bool ok = s.prng.chance(75);
 				o << "op " << k << (ok ? " succeed " : " fail ") << sid << "\n";
 				enterCall(k);
